@@ -337,6 +337,10 @@ def main():
         finally:
             wc.encode_weights = orig
 
+    def parse_qs(s):
+        v = [int(x) for x in s.split()[1:]]
+        return [(v[i], v[i + 1]) for i in range(0, len(v), 2)]
+
     def hexs(b):
         return bytes(b).hex() if len(b) else "-"
 
@@ -403,6 +407,38 @@ def main():
                 toks.append(" ".join(map(str, dec)))
         return "wl_spec " + " ".join(map(str, toks))
 
+    # ---- replay of one stub case (./check C08 --replay replays/C08-<seed>-<n>.json) -------------
+    if ck.replay_arg:
+        import json
+        import os
+        path = ck.replay_arg if os.path.isabs(ck.replay_arg) else os.path.join(common.VERIF, ck.replay_arg)
+        rp = json.load(open(path))
+        d = rp.get("replay", {})
+        print("replaying:", rp.get("what", "")[:300])
+        if not d.get("stub_case"):
+            print("this replay describes a compiled network / request sequence / correspondence; re-run the fixed scenarios with ./check C08 quick "
+                  "(they are rebuilt deterministically: shared_w_int8_int16, two_means_9x2_3x6, one_mean_u65_after_u55, single_buffer_560_vs_2864)")
+            print(json.dumps(d, indent=1)[:3000])
+            raise SystemExit(0)
+        c = dict(d)
+        c["acc"] = Accelerator(d["acc"])
+        c["shape"] = tuple(d["shape"])
+        c["wvals"] = np.array(d["weights_hwio"], dtype=np.uint8 if d["wdt"] == "uint8" else np.int8)
+        c["wzp"] = d["wzp"] if not isinstance(d["wzp"], list) else np.array(d["wzp"], dtype=np.int64)
+        c["wscales"] = f32(d["wscales"]) if not isinstance(d["wscales"], list) else np.array(d["wscales"], dtype=np.float32)
+        c["ifm_scale"], c["ofm_scale"] = f32(d["ifm_scale"]), f32(d["ofm_scale"])
+        c["explicit"] = tuple(d["explicit"]) if d.get("explicit") else None
+        arch, op, w, b, kernel, bc = build(c)
+        po = ck.model([prep_inputs(op, b)])[0]
+        res = run_real(arch, op, w, b, kernel, bc, c["offsets"])
+        if res["err"] or not po.startswith("ok"):
+            print("implementation:", res["err"], "| model of _prepare_scale_and_bias:", po[:80])
+            raise SystemExit(1 if res["err"] and not c.get("mal") else 0)
+        verdict = ck.model([spec_line(arch, op, w, b, kernel, bc, c["offsets"], res["wt"], parse_qs(po), True)])[0]
+        print("ranges (core, depth, offset, scale_bytes, weight_offset, weight_bytes, index):", ranges_of(res["wt"]))
+        print("double_buffer_sizes:", res["wt"].double_buffer_sizes, "Lean Spec verdict:", verdict)
+        raise SystemExit(0 if verdict == "ok" else 1)
+
     # ---- generate stub cases ----------------------------------------------------------------
     n_cases = 25000 if T else 1500
     cases = []
@@ -436,10 +472,6 @@ def main():
         prep_real.append(real_prep(arch, op, b))
     prep_outs = ck.model(prep_reqs)
     prep_dis = [i for i in range(len(cases)) if prep_outs[i] != prep_real[i]]
-
-    def parse_qs(s):
-        v = [int(x) for x in s.split()[1:]]
-        return [(v[i], v[i + 1]) for i in range(0, len(v), 2)]
 
     enc_reqs, enc_real, enc_idx = [], [], []
     raised_on_valid = []
@@ -513,7 +545,8 @@ def main():
     def describe(c):
         d = {k: (v if not hasattr(v, "tolist") else v.tolist()) for k, v in c.items() if k != "wvals"}
         d["acc"] = c["acc"].value
-        d["weights_hwio"] = c["wvals"].tolist() if c["wvals"].size <= 256 else "(%d values, seed-derived)" % c["wvals"].size
+        d["weights_hwio"] = c["wvals"].tolist()
+        d["stub_case"] = True
         d["replay"] = ("build a %s operator (ethosu/vela/test/testutil style stub), weights shape %s, then weight_compressor.encode_weight_and_scale_tensor("
                        "arch(%s), op, w, b, Kernel(%d,%d,dilation %d), block depth %d, %s)" %
                        (c["kind"], tuple(c["wvals"].shape), c["acc"].value, c["shape"][1], c["shape"][0], c["dil"], c["bd"], c["offsets"]))
@@ -1096,8 +1129,10 @@ def main():
         "cache_sequences": n_worlds,
         "networks_compiled": ck.counters.get("compile_ok", 0),
         "exhaustive": False,
-        "unreached_branches": ["Err.index (scale list shorter than bias list: _prepare_scale_and_bias always repeats or matches)",
-                               "create_weights with a stand-alone scale tensor is exercised only through compiled networks"],
+        "unreached_branches": ([] if ck.counters.get("outcome_err:index") else
+                               ["Err.index (scale list shorter than bias list: _prepare_scale_and_bias always repeats or matches)"])
+        + ["model createWeights with a stand-alone scale tensor (scaleTensor = some ..): the real path is exercised through compiled "
+           "networks and judged by the Spec only"],
         "trusted_base_extra": ["scaling.quantise_scale / reduced_quantise_scale (property C09) supply the candidate (multiplier, shift) pairs",
                                "mlw_codec.decode (property C07) turns weight sections back into integers"],
     }, assumptions=[
